@@ -101,8 +101,13 @@ def classify(case):
     names = case.get("diag_names") or ["", "", ""]
     cons = case.get("construct") or [0, 0, 0]
 
-    # F3: `--` in code position; the program has a minus sign
+    # F3: `--` in code position; the program has a minus sign.  Residual class (open): the negated operand is a negative
+    # number literal or an s-string whose text starts with `-`; anything else is the repaired neg-of-neg class.
     if "--" in code and "-" in src:
+        if re.search(r"--\d", code) and re.search(r"-\s*\d", src):
+            return "C07-N11-double-minus-literal"
+        if re.search(r's"-', src):
+            return "C07-N11-double-minus-literal"
         return "F03-double-minus"
     if kind == "ops":
         return None
@@ -119,7 +124,8 @@ def classify(case):
     if d == "mssql" and kind == "dialect" and cons == [3, 0, 0] and OPEN_TAKE.search(src) and "OFFSET" in code:
         return "C07-N7-mssql-offset-without-order-by"
     # F28: one operand of a set operation pruned, the other not
-    if re.search(r"\b(append|remove|intersect)\b", src) and ((kind in ("sqlite",) and "same number of result columns" in msg) or (kind == "scope" and diag[0] == 8)):
+    if (re.search(r"\b(append|remove|intersect)\b", src) or ("join" in src and re.search(r"\b(INTERSECT|EXCEPT)\b", code))) \
+            and ((kind in ("sqlite",) and "same number of result columns" in msg) or (kind == "scope" and diag[0] == 8)):
         return "F28-setop-operand-pruned"
     # F24: renamed duplicate column behind a star
     if "join" in src and re.search(r"\.\*", code):
@@ -145,11 +151,16 @@ def classify(case):
     if d == "ansi" and kind == "parse" and re.search(r"(?<![A-Za-z0-9_])_[A-Za-z0-9_]+", code) and case.get("parses_when_underscore_idents_quoted"):
         return "C07-N4-ansi-underscore-identifier"
     # N10: join over "all columns" of wildcard relations: `a.* = b.*`
-    if re.search(r"\b(intersect|remove)\b", src) and (re.search(r"\.\* = \w+\.\*", code) or '."*" = ' in sql):
-        if kind in ("parse", "sqlite") or (kind == "scope" and diag[0] in (4, 5)):
-            return "C07-N10-star-in-join-condition"
+    if re.search(r"\b(intersect|remove)\b", src):
+        both_stars = bool(re.search(r"\.\* = \w+\.\*", code)) or '."*" = ' in sql and sql.count('"*"') >= 2 and bool(re.search(r'"\*" = "\w+"\."\*"', sql))
+        one_star = bool(re.search(r"\w+\.\* = |= \w+\.\*", code)) or '"*"' in sql
+        unused_result = bool(re.search(r"\bintersect\b[\s\S]*\baggregate\b", src))     # (a): nothing of the intersect's columns is used afterwards
+        if both_stars or (one_star and ("setop_cols2" in (case.get("tags") or []) or unused_result)):
+            if kind in ("parse", "sqlite") or (kind == "scope" and diag[0] in (4, 5)):
+                return "C07-N10-star-in-join-condition"
     # N5: BigQuery has no EXCEPT ALL / INTERSECT ALL
-    if d == "bigquery" and kind == "dialect" and cons[0] == 6 and cons[1] in (1, 2) and cons[2] == 0 and re.search(r"\b(remove|intersect)\b", src):
+    if d == "bigquery" and kind == "dialect" and cons[0] == 6 and cons[1] in (1, 2) and cons[2] == 0 \
+            and (re.search(r"\b(remove|intersect)\b", src) or ("join" in src and re.search(r"\b(INTERSECT|EXCEPT) ALL\b", code))):
         return "C07-N5-bigquery-except-all"
     # N6: T-SQL has no RECURSIVE keyword
     if d == "mssql" and kind == "dialect" and cons == [9, 0, 0] and "loop" in src:
